@@ -27,7 +27,7 @@ PROP = "C06"
 N = {"quick": 45, "thorough": 2500}
 WORKERS = {"quick": 4, "thorough": 16}
 TIMEOUT = {"quick": 240, "thorough": 1000}
-CASE_TIMEOUT = 120.0
+CASE_TIMEOUT = 300.0
 RULE = ("seeded synthetic systems (2-4 md-variables with random dof types on subdomain or "
         "interface subsets, 2-5 equations with cell/face/node images on subdomain or interface "
         "subsets, set in random order) on md-grids with 0-3 fractures, 6 restrictions per "
